@@ -404,6 +404,10 @@ func (f *Failover) recentlyFailed(ctx context.Context, key []byte) error {
 }
 
 func (f *Failover) observeMutability(ctx context.Context, uVal, value interface{}) {
+	if f.stat == nil {
+		return
+	}
+
 	equal := reflect.DeepEqual(value, uVal)
 	if !equal {
 		f.stat.Add(ctx, MetricChanged, 1, "name", f.config.Name)
